@@ -93,7 +93,11 @@ def run_indep(scn):
             "tick": k, "settings_a": scn["exec_a"], "settings_b": scn["exec_b"],
             "a": json.dumps(xa[k], default=str)[:200], "b": json.dumps(xb[k], default=str)[:200]}).to_json()
         return res
-    c = dict(scn, cfg=dict(scn["cfg"], random_seed=scn["cfg"]["random_seed"] + 1 + scn.get("seed_step", 0), **scn["exec_a"]))
+    other = scn.get("other_seed", scn["cfg"]["random_seed"] + 1 + scn.get("seed_step", 0))
+    if other == "default":
+        from eudoxia.simulator import get_param_defaults  # noqa: WPS433 - the package is importable once a run was made
+        other = get_param_defaults()["random_seed"]
+    c = dict(scn, cfg=dict(scn["cfg"], random_seed=other, **scn["exec_a"]))
     _, _, outc, rc = run_digest(c, {"uuid_seed": 3, "container_offset": 1}, True)
     n_pipes = len(ra.pipes)
     cfg = scn["cfg"]
@@ -143,6 +147,14 @@ def gen_indep(r, tier):
                 "multi": True if algo == "priority-pool" else r.random() < 0.5, "over": algo == "overbook" or r.random() < 0.2}
     scn["exec_a"], scn["exec_b"] = ex(), ex()
     scn["seed_step"] = r.randint(0, 3)
+    if r.random() < 0.15:
+        # a seed that is falsy / at a width boundary against the package default and its neighbours, on a workload in
+        # which the seed decides a lot (so that the pair is always compared)
+        scn["cfg"]["random_seed"] = r.choice([0, 0, 0, 2 ** 32, 2 ** 32 - 1, 2 ** 63])
+        scn["other_seed"] = r.choice(["default", "default", "default", 1, scn["cfg"]["random_seed"] + 2 ** 32, 2 ** 64])
+        i, q, b = r.choice([(0.3, 0.1, 0.6), (0.33, 0.33, 0.34), (0.25, 0.25, 0.5)])
+        scn["cfg"].update(tps=10, duration=float(r.randint(10, 30)), waiting_seconds_mean=0.01, num_pipelines=r.choice([4, 7]),
+                          interactive_prob=i, query_prob=q, batch_prob=b)
     return scn
 
 
